@@ -14,6 +14,10 @@ package contexttags
 //@ method (*withContext).Unwrap
 //@   props C07 C10 C14
 //@   ensures result == self.cause
+//@ method (*withContext).SafeFormatError
+//@   props C09
+//@   requires p != nil
+//@   ensures result == self.cause
 
 //@ func WithContextTags
 //@   props C10 C07
